@@ -39,6 +39,14 @@ def branch(pot, phase, T):
             return np.stack([h, np.zeros_like(h)], axis=-1)
         S = np.sqrt(np.maximum(pot.S2(T), 0.0))
         return np.stack([np.zeros_like(S), S], axis=-1)
+    if fam == "Poly2F":
+        # poly1 at lamEff on the valley u^2 = v^2 - 2 kap p^2/l1: the low phase keeps the
+        # inflection point past the fold (disc clamped at 0); the high phase (v,0) is
+        # continued below T0 by the valley point at p_-(T) < 0 (transcritical exchange)
+        if phase == "high":
+            pm = np.where(T < pot.T0, pot.phi_minus(T), 0.0)
+            return np.stack([pot.u_valley(pm), pm], axis=-1)
+        return np.asarray(pot.low_point(T))
     raise ValueError(fam)
 
 
@@ -95,20 +103,41 @@ def critical_points(pot, T):
                     for ss in (1, -1):
                         pts.append((np.array([sh * math.sqrt(h2), ss * math.sqrt(S2)]),
                                     f"mixed{'+' if sh > 0 else '-'}{'+' if ss > 0 else '-'}"))
+    elif fam == "Poly2F":
+        # dV/du = u [l1 (u^2-v^2) + 2 kap p^2] = 0: valley or the axis u = 0;
+        # dV/dp = p [2 kap (u^2-v^2) + 2 D (T^2-T0^2) - 3 E T p + lam p^2] = 0
+        for su, tag in ((1.0, ""), (-1.0, "m:")):           # u -> -u mirror images
+            pts.append((np.array([su * pot.v, 0.0]), tag + "sym"))
+        disc = float(pot._disc(T))
+        if disc > 0:
+            r = math.sqrt(disc)
+            for q, lab in (((3 * pot.E * T + r) / (2 * pot.lamEff), "broken+"),
+                           ((3 * pot.E * T - r) / (2 * pot.lamEff), "broken-")):
+                u2 = pot.v ** 2 - 2 * pot.kap * q * q / pot.l1
+                if u2 > 0:
+                    for su, tag in ((1.0, ""), (-1.0, "m:")):
+                        pts.append((np.array([su * math.sqrt(u2), q]), tag + lab))
+        pts.append((np.array([0.0, 0.0]), "axis:0"))
+        c0 = 2 * pot.D * (T * T - pot.T0 ** 2) - 2 * pot.kap * pot.v ** 2
+        d0 = 9 * pot.E ** 2 * T * T - 4 * pot.lam * c0
+        if d0 > 0:
+            for sg, lab in ((1.0, "axis:+"), (-1.0, "axis:-")):
+                pts.append((np.array([0.0, (3 * pot.E * T + sg * math.sqrt(d0)) / (2 * pot.lam)]), lab))
     else:
         raise ValueError(fam)
     return [(p, _kind(pot, p, T), lab) for p, lab in pts]
 
 
 OWN_LABEL = {("Poly1", "high"): "sym", ("Poly1", "low"): "broken+",
-             ("Poly2", "low"): "h+", ("Poly2", "high"): "S+"}
+             ("Poly2", "low"): "h+", ("Poly2", "high"): "S+",
+             ("Poly2F", "high"): "sym", ("Poly2F", "low"): "broken+"}
 
 
 def own_labels(pot, phase, T):
     """Labels of the critical points that make up the *continuous* branch at T."""
     fam = type(pot).__name__
     own = {OWN_LABEL[(fam, phase)]}
-    if fam == "Poly1" and phase == "high" and T <= pot.T0:
+    if fam in ("Poly1", "Poly2F") and phase == "high" and T <= pot.T0:
         own.add("broken-")
     if fam == "Poly2":
         hi, kind = end_types(pot, phase)["hi"]
@@ -128,7 +157,8 @@ def end_types(pot, phase):
     """{"lo": (T, type), "hi": (T, type)} with type in
     none        no spinodal at this end (T -> 0 or infinity)
     -- hard ends: the continuous family of minima stops
-    fold        minimum and maximum annihilate (poly1 broken phase at T1)
+    fold        minimum and maximum annihilate (poly1 broken phase at T1; poly2f low phase,
+                minimum and saddle on the valley)
     unstable    a transverse mass goes through zero sub-critically (lh*ls < lhs^2/4: the
                 mixed critical point is a saddle); the closed-form point survives as a saddle
     -- soft ends: a minimum continues continuously on another closed form
@@ -140,7 +170,7 @@ def end_types(pot, phase):
     fam = type(pot).__name__
     out = {"lo": (lo, "none" if lo <= 0 else "unstable"),
            "hi": (hi, "none" if not math.isfinite(hi) else "unstable")}
-    if fam == "Poly1":
+    if fam in ("Poly1", "Poly2F"):
         if phase == "low":
             out["hi"] = (hi, "fold" if math.isfinite(hi) else "none")
         else:
@@ -154,6 +184,37 @@ def end_types(pot, phase):
                 if out[side][1] == "unstable":
                     out[side] = (out[side][0], "exchange")
     return out
+
+
+def fold_geometry(pot):
+    """Closed-form local geometry of the fold at T1 (Poly1 / Poly2F low phase), used to
+    *propagate* a residual gradient g (what the tracer controls: |grad V| <= rTol*T0^3) into
+    a temperature and a curvature tolerance.  With x the coordinate along the null vector n
+    of the Hessian at the fold point,  n.grad V = V3 x^2/2 + A (T - T1) + ...:
+        A   = |n . d(grad V)/dT|   a gradient g moves the end of the branch by g/A,
+        V3  = |V_nnn|              a point with |n.grad V| <= g within g/A of T1 has a
+                                   curvature >= -sqrt(4 V3 g) along n,
+        noise = (largest intermediate magnitude in the evaluation of V)/(a T1^4): the factor
+                by which the rounding noise of V -- hence of scipy's forward-difference
+                gradient inside findLocalMinimum -- exceeds that of the one-field model the
+                floor R_FLOOR of the check was observed on.
+    Poly2F: T enters through p only and n is the tangent of the valley
+    u^2 = v^2 - 2 kap p^2/l1, (du/dp, 1)/norm with du/dp = -2 kap p/(l1 u)."""
+    fam = type(pot).__name__
+    T1 = pot.T1()
+    lam = pot.lamEff if fam == "Poly2F" else pot.lam
+    pf = 3 * pot.E * T1 / (2 * lam)
+    A = abs(4 * pot.D * T1 * pf - 3 * pot.E * pf * pf)
+    V3 = 3 * pot.E * T1                     # -6 E T + 6 lam p at p = 3 E T/(2 lam)
+    noise = 1.0
+    if fam == "Poly2F":
+        uf = float(pot.u_valley(pf))
+        npz = 1.0 / math.sqrt(1.0 + (2 * pot.kap * pf / (pot.l1 * uf)) ** 2)
+        A, V3 = A * npz, V3 * npz ** 3
+        # u^2 - v^2 is formed from two numbers of size v^2: its rounding error eps*v^2 enters
+        # V through (l1 w/2 + kap p^2) = 2 kap p^2 on the valley
+        noise = 1.0 + 2 * abs(pot.kap) * pf * pf * pot.v ** 2 / (pot.a * T1 ** 4)
+    return {"A": A, "V3": V3, "noise": noise, "p_fold": pf}
 
 
 def hard(kind):
